@@ -73,6 +73,8 @@ def mutants(prog):
         ("wlcc: joint mask from the source mask only", L, "wlcc_loss", "mask = source_mask.mul(target_mask)", "mask = source_mask", "T16.wlcc"),
         ("wlcc: target mean weighted by the source mask", L, "wlcc_loss", "target_mean = local_mean(target, target_mask)", "target_mean = local_mean(target, source_mask)", "T16.wlcc"),
         ("wlcc: weighted mean not normalised", L, "wlcc_loss", "return a.div_(b)", "return a", "T16.wlcc"),
+        ("masked_loss: channel count compared with the batch size", L, "masked_loss", "mask.shape[1] != 1 and mask.shape[1] != loss.shape[1]", "mask.shape[1] != 1 and mask.shape[1] != loss.shape[0]", "T16.mask"),
+        ("elementwise loss: factor applied to the unmasked branch only", L, "elementwise_loss", "loss = reduce_loss(loss, reduction, mask)", "return reduce_loss(loss, reduction, mask)", "T16.norm"),
     ]
     for name, mod, fn, old, new, expect in specs:
         ov = source_sub(prog, mod, fn, old, new)
